@@ -24,13 +24,16 @@ Exec(i) ==
     IN  /\ act' = i
         /\ st' = to
         /\ depth' = IF to # st THEN depth + 1 ELSE depth
-Next == \E i \in Items : Relevant(st, Item(i)) /\ Exec(i)
+\* (Relevant(..) = TRUE: as a plain conjunct TLC would enumerate its disjunctions and generate the same successor 2^k times)
+Next == \E i \in Items : (Relevant(st, Item(i)) = TRUE) /\ Exec(i)
 Spec == Init /\ [][Next]_vars
 
 View == st
+\* states reached by MaxDepth state-changing statements are still expanded (all their transitions are emitted),
+\* states beyond are not: the bound sits on the source state of a transition, not on its target
 Bound == depth <= MaxDepth
 TypeInv == TypeOK(st) /\ Consistent(st)
 
 StTuple(s) == <<s.mode, s.prog, s.trap, s.prot, s.files, s.screen, s.view, s.window, s.ev, s.seg>>
-Emit == PrintT(<<"TRANSITION", ToJson(<<StTuple(st), act', StTuple(st'), EffectChecked(st, Item(act'))>>)>>)
+Emit == Bound /\ PrintT(<<"TRANSITION", ToJson(<<StTuple(st), act', StTuple(st'), EffectChecked(st, Item(act'))>>)>>)
 =============================================================================
